@@ -27,16 +27,21 @@ def run(ctx):
 
 
 def buffers(ctx, args):
-    """short / char16_t / char buffers through copy_memory_or_grant_access / copy_memory_or_deny_access under each ABI. The
-    library may refuse an element type at compile time ("there may be ABI differences"): then no integer crosses and the
-    property holds for that ABI; any other build failure is a harness error. lp32 (16-bit short) must always build."""
+    """short / char16_t / char buffers (plain and const) through copy_memory_or_grant_access / copy_memory_or_deny_access under each ABI,
+    one build per (ABI, element type). The library may refuse an element type at compile time ("there may be ABI differences"):
+    then no integer crosses and the property holds for that pair; any other build failure is a harness error. Under lp32
+    (16-bit short) every type must build."""
     from vdriver import CannotDecide
     import re
-    refused = []
-    for abi in ('lp32', 'wide', 'tiny'):
-        name = 'c06_buf_' + abi
+    import concurrent.futures as cf
+    types = [('short', 'short'), ('cshort', 'const short'), ('char16', 'char16_t'), ('cchar16', 'const char16_t'), ('char', 'char'), ('cchar', 'const char')]
+    jobs = [(abi, tn, tt) for abi in ('lp32', 'wide', 'tiny') for tn, tt in types]
+
+    def one(job):
+        abi, tn, tt = job
+        name = 'c06_buf_%s_%s' % (abi, tn)
         try:
-            b = ctx.build(name, 'c06.cpp', opt='-O0', defs=['C06_SL=abi_' + abi, 'C06_BUF'])
+            return job, ctx.build(name, 'c06.cpp', opt='-O0', defs=['C06_SL=abi_' + abi, 'C06_BUF=' + tt]), None
         except CannotDecide as e:
             log = ''
             m = re.search(r'log: ([^)]*)\)', str(e))
@@ -45,10 +50,17 @@ def buffers(ctx, args):
                     log = open(m.group(1)).read()
                 except OSError:
                     pass
-            if abi != 'lp32' and 'there may be ABI differences' in log:
-                refused.append(abi)
-                continue
-            ctx.result.crashed.append('build: ' + str(e))
+            return job, None, (str(e), log)
+
+    refused = []
+    with cf.ThreadPoolExecutor(max_workers=16) as ex:
+        results = list(ex.map(one, jobs))
+    for (abi, tn, tt), b, err in results:
+        if b is None:
+            if abi != 'lp32' and 'there may be ABI differences' in err[1]:
+                refused.append('%s:%s' % (abi, tt))
+            else:
+                ctx.result.crashed.append('build: ' + err[0])
             continue
         ctx.run(b, args, parts=1)
-    ctx.extra_cov['buffer_routes_refused_at_compile_time'] = refused
+    ctx.extra_cov['buffer_routes_refused_at_compile_time'] = sorted(refused)
